@@ -119,7 +119,9 @@ class NBuilder(object):
     def string(self, name):
         v = self.model.get(name)
         if isinstance(v, dict) and "str" in v:
-            return v["str"]
+            import re as _re
+            # z3 prints non-printable characters as \u{hex}
+            return _re.sub(r"\\u\{([0-9a-fA-F]+)\}", lambda m: chr(int(m.group(1), 16)), v["str"])
         return "<%s>" % name
 
     def optreal(self, name):
@@ -206,6 +208,16 @@ class NBuilder(object):
 
     def opaque(self, name):
         return None
+
+    def optstr(self, name):
+        if self.model.get(name + ".isnone", False):
+            return None
+        return self.string(name)
+
+    def optint(self, name):
+        if self.model.get(name + ".isnone", False):
+            return None
+        return int(self._num(name))
 
     def optobj(self, name, obj):
         return None if self.model.get(name + ".isnone", False) else obj
